@@ -372,8 +372,10 @@ class Run:
             "violations": len(self.violations),
         }
         if not self.replay and not os.environ.get("VERIF_NO_EVIDENCE"):
-            os.makedirs(EVIDENCE_DIR, exist_ok=True)
-            with open(os.path.join(EVIDENCE_DIR, f"{self.prop}.json"), "w") as f:
+            # checks that extend the specification beyond the listed properties (X..) report next to, not among, the evidence
+            edir = EVIDENCE_DIR if self.prop.startswith("C") else os.path.join(ROOT, "evidence_extra")
+            os.makedirs(edir, exist_ok=True)
+            with open(os.path.join(edir, f"{self.prop}.json"), "w") as f:
                 json.dump(ev, f, indent=1)
         seen = set()
         for k in self.known:
